@@ -522,6 +522,12 @@ func coqCval(c *abi.ComponentValue, t *Type, key string) string {
 	}
 	var kids []string
 	for i, ch := range c.Children {
+		if t.Override != nil {
+			if i < len(t.Override) {
+				kids = append(kids, coqCval(ch, t.Override[i], t.Override[i].Name))
+			}
+			continue
+		}
 		switch t.Kind {
 		case FixedArr, DynArr:
 			kids = append(kids, coqCval(ch, t.Elem, key))
